@@ -406,6 +406,19 @@ pub fn run(reg: &dyn Registry, ctx: &Ctx) -> Outcome {
                     let inv = alphabet::inv_odd(m1, w);
                     xs.extend(alphabet::mult_boundary_words(w, m2, ctx.seed ^ 1).into_iter().map(|y| rotr(y, rot).wrapping_mul(inv) & mask));
                 }
+                // operands for which the first product, or the rotated first product, is a special value (zero,
+                // one, all ones, a single bit, 2^w - 2, ...): a reduction or shortcut that is exact except for
+                // one value of an intermediate result
+                {
+                    let inv = alphabet::inv_odd(m1, w);
+                    let mut specials: Vec<u64> = vec![0, 1, 2, mask, mask - 1, mask >> 1, (mask >> 1) + 1, 0xffff, 0xffff_0000 & mask];
+                    specials.extend((0..w).map(|b| 1u64 << b));
+                    specials.extend((0..w).map(|b| mask ^ (1u64 << b)));
+                    for &v in &specials {
+                        xs.push(v.wrapping_mul(inv) & mask);
+                        xs.push(rotr(v, rot).wrapping_mul(inv) & mask);
+                    }
+                }
                 xs.sort();
                 xs.dedup();
                 let wb = w / 8;
